@@ -206,7 +206,28 @@ func rewriteBlock(fn string, b *ast.BlockStmt) {
 	b.List = out
 }
 
+// timeShim rewrites the uses of package time in handler.go to the virtual-time shim (textual).
+func timeShim(in, out string) {
+	b, err := os.ReadFile(in)
+	if err != nil {
+		fmt.Fprintln(os.Stderr, err)
+		os.Exit(2)
+	}
+	s := string(b)
+	for _, r := range [][2]string{{"time.Now(", "NvNow("}, {"time.Since(", "NvSince("}, {"time.AfterFunc(", "NvAfterFunc("}, {"*time.Timer", "*NvTimer"}, {"time.NewTimer(", "NvUnsupportedNewTimer("}} {
+		s = strings.ReplaceAll(s, r[0], r[1])
+	}
+	if err := os.WriteFile(out, []byte(s), 0o644); err != nil {
+		fmt.Fprintln(os.Stderr, err)
+		os.Exit(2)
+	}
+}
+
 func main() {
+	if len(os.Args) == 4 && os.Args[1] == "-time" {
+		timeShim(os.Args[2], os.Args[3])
+		return
+	}
 	if len(os.Args) < 3 {
 		fmt.Fprintln(os.Stderr, "usage: nvinstr <in.go> <out.go> [funcs]")
 		os.Exit(2)
